@@ -177,7 +177,7 @@ def step (_ : Unit) (line : String) : Unit × String :=
           let res := match o.res with
             | .ok _ => "ok"
             | .error e => "err:" ++ errClass e
-          res ++ " alloc=" ++ (if allocOf data > 4 * data.length + 16384 then "excess" else "proportional")
+          res ++ " alloc=" ++ (if allocBytes ver data > 4 * data.length + 16384 then "excess" else "proportional")
         else "bad-op"
       | _, _ => "bad-op"
     | [op, a] =>
@@ -219,25 +219,6 @@ def step (_ : Unit) (line : String) : Unit × String :=
       | _, _, _, _, _, _, _ => "bad-op"
     | _ => "bad-op"
   ((), out)
-where
-  /-- bytes the Go code allocates up front for the body: `make([]byte, RemainLength)` happens in every `Unpack`
-      before a single body byte has been read (F24) -/
-  allocOf (data : Bytes) : Nat :=
-    match data with
-    | [] => 0
-    | first :: s1 =>
-      match decVbi s1 with
-      | .error _ => 0
-      | .ok (n, _) =>
-        let t := first / 16
-        let fl := first % 16
-        -- the types whose constructor checks flags / length first never reach `make`
-        if t = 0 then 0
-        else if (t = 1 || t = 2 || t = 9 || t = 11 || t = 14 || t = 15) && fl != 0 then 0
-        else if (t = 8 || t = 10) && fl != 2 then 0
-        else if t = 12 || t = 13 then 0
-        else if t = 3 && ((fl / 2 % 4 = 0 && fl / 8 % 2 = 1) || fl / 2 % 4 > 2) then 0
-        else n
 
 end Driver.Codec
 
